@@ -48,10 +48,11 @@ def kind_conf(k: dict, api: bool = True, static: list[str] | None = None) -> dic
 
 
 def kind_speaker_spec(k: dict) -> dict:
-    spec = {'asn': k['peer_as'], 'families': [(1, 1), (2, 1), (1, 4), (1, 128)], 'asn4': k['peer_asn4'] or k['peer_as'] > 65535, 'extmsg': k['extmsg']}
+    drops = {FAMILY[f] for f in k.get('peer_drops', [])}  # families exabgp is configured for and the peer does not offer
+    spec = {'asn': k['peer_as'], 'families': [f for f in [(1, 1), (2, 1), (1, 4), (1, 128)] if f not in drops], 'asn4': k['peer_asn4'] or k['peer_as'] > 65535, 'extmsg': k['extmsg']}
     if k['addpath'] or k.get('ap_peer'):
         m = k.get('ap_peer', 3)
-        spec['addpath'] = [(1, 1, m), (1, 4, m), (1, 128, m), (2, 1, m)]
+        spec['addpath'] = [(a, s_, m) for a, s_ in [(1, 1), (1, 4), (1, 128), (2, 1)] if (a, s_) not in drops]
     if k.get('nexthop_ext'):
         spec['nexthop'] = [(1, 1, 2)]
     return spec
@@ -202,6 +203,8 @@ def expected_routes(r: dict, k: dict) -> list[tuple[tuple, dict]]:
     """[(key, {'next_hop', 'labels', 'attrs'})] a peer of kind k must hold after this announce"""
     neg = negotiated_of(k)
     afi, safi = FAMILY[r['fam']]
+    if r['fam'] in k.get('peer_drops', []):
+        return []  # the family was not negotiated: nothing of it may be sent, announce or withdraw
     prefixes = [r['p']]
     if r.get('split'):
         net = ipaddress.ip_network(r['p'])
